@@ -36,6 +36,7 @@ func errPathsSorted(o *Outcome) []string {
 
 func runC02(c *run.Ctx) {
 	defer c02Methods(c)
+	defer c02Sequences(c)
 	defer c02Farm(c)
 	c.Rule = "each generated tuple is served by interface resolvers, a root (any) resolver, reflection over dynamically built and registered struct types, and three per-node mixtures " +
 		"(iface+any, iface+reflect, reflect-capable structs with an AnyResolver installed); oracle: pairwise equality of canonical data and of sorted error paths, plus the call log " +
@@ -378,5 +379,63 @@ func c02Methods(c *run.Ctx) {
 			c.Violation("c02-method-vs-direct-call", map[string]interface{}{"document": text, "vars": fmt.Sprintf("%#v", vars), "effective_arguments": fmt.Sprint(eff),
 				"direct_go_call": ref.Render(want), "resolved": ref.Render(got), "errors": fmt.Sprint(res["errors"]), "panic": fmt.Sprint(pv)})
 		}
+	}
+}
+
+// c02Sequences: reflection learns its bindings from the values it meets (first use of a type, of a field, pointer or
+// struct value, one Go type or two behind an object type). What a request is answered must not depend on which requests
+// the root served before: every request of a random sequence on ONE root must get the answer it gets on a fresh root.
+// (Not in the pool: a SECOND Go type with methods of its own behind one object type, zoo's accountBot. A field has one
+// method binding; which Go type gets it is decided by the first request and reported as an error to the other - a stated
+// limit of the reflection strategy, not an order the property promises to be free of.)
+func c02Sequences(c *run.Ctx) {
+	pool := []string{
+		`{ account { id } }`,
+		`{ accountVal { name } }`,
+		`{ account { greeting(prefix: "x") } }`,
+		`{ accountVal { greeting(prefix: "v") id } }`,
+		`{ member { __typename id ... on Member { name since } } }`,
+		`{ account { __typename name } member { __typename ... on Member { since } } }`,
+		`{ items { id label(prefix: "p", upper: false) } }`,
+		`{ items { size } }`,
+		`{ firstN(n: 2) { id ghost } }`,
+		`{ pick(i: 1) { label(prefix: "q", upper: true) tags } }`,
+		`{ node { __typename id } nodes { __typename id ... on Item { size } } }`,
+		`{ thing { __typename ... on Item { id } } things { ... on Other { note } ... on Item { kind } } }`,
+		`{ strangers { __typename id } stranger { id } }`,
+		`{ self { self { name count } } }`,
+		`mutation { diff(a: 9, b: 4) renamed }`,
+		`mutation { bump(by: 0) }`,
+	}
+	alone := make([]string, len(pool))
+	for i, q := range pool {
+		root, _, err := zoo.NewRoot()
+		if err != nil {
+			c.Violation("c02-zoo-schema", map[string]interface{}{"error": err.Error()})
+			return
+		}
+		alone[i] = respText(root.ResolveString(q, "", nil))
+	}
+	n := c.N(400, 8000)
+	for i := 0; i < n && !c.TooMany(); i++ {
+		r := c.Rand(4500000 + i)
+		root, _, err := zoo.NewRoot()
+		if err != nil {
+			return
+		}
+		perm := r.Perm(len(pool))[:3+r.Intn(4)]
+		var hist []string
+		for step, qi := range perm {
+			var got string
+			pv, _ := run.Protect(func() { got = respText(root.ResolveString(pool[qi], "", nil)) })
+			hist = append(hist, pool[qi])
+			c.Count("requests_in_sequences_on_one_root", 1)
+			if pv != nil || got != alone[qi] {
+				c.Violation("c02-sequence-dependent", map[string]interface{}{"history": hist, "step": step + 1, "request": pool[qi], "on_a_fresh_root": alone[qi], "after_the_history": got, "panic": fmt.Sprint(pv)})
+				break
+			}
+		}
+		c.Eval("seq|"+strings.Join(hist, "|"), true)
+		c.Bucket("data_variant", "zoo-request-sequences")
 	}
 }
